@@ -493,7 +493,9 @@ def fast_pareto_mask(df_values, goals, distinct=True):
             eff_data = eff_data.copy()
         for j, (_, sign) in enumerate(effective_cols):
             if sign != 1.0:
-                np.negative(eff_data[:, j], out=eff_data[:, j])
+                # Not np.negative(..., out=<same strided view>): in-place ufuncs on a
+                # strided float32 column have been seen to negate the wrong elements.
+                eff_data[:, j] = -eff_data[:, j]
     else:
         eff_data = np.empty((n, n_eff), dtype=eff_dtype)
         j = 0
